@@ -684,19 +684,28 @@ theorem elabField_meaning' (O : Oracles) (future : Bool) (fs : FieldSp)
       simp [finishField, hd.1]
     | kw v n =>
       simp only [Bool.and_eq_true, Bool.or_eq_true] at hd
-      obtain ⟨⟨hsc, hkw⟩, hok⟩ := hd
+      obtain ⟨⟨hkd, hkw⟩, hok⟩ := hd
       have ho := g.ki hkw
       subst ho
-      simp only [evTop, hev, bindE_ok, hkw, hsc, fieldMeaning, DefaultSp.value, applyKw]
-      by_cases ht : truthy v = true
-      · cases htd : tryDefault O (denote ty) v with
-        | error e => simp [ht]
-        | ok u => simp [ht, annField, isFieldObj, getItem, finishField, eqResult_scalar _ _ hsc]
-      · have hok' : defaultOk O (denote ty) v = true := by
-          rcases hok with hok | hok
-          · exact absurd hok ht
-          · exact hok
-        simp [ht, tryDefault_of_ok hok', annField, isFieldObj, getItem, finishField, eqResult_scalar _ _ hsc]
+      have hfe : isFieldExpr ty = true := kwAllowed_fieldExpr hkw
+      by_cases hn : v.isNone = true
+      · have hv : v = .none := by cases v <;> simp [PyVal.isNone] at hn ⊢
+        subst hv
+        simp [evTop, hev, hkw, kwDefault, PyVal.isNone, fieldMeaning, DefaultSp.value, applyKw, truthy, annField,
+          isFieldObj, getItem, finishField, effOptional, hfe]
+      · have hn' : v.isNone = false := by simpa using hn
+        have hsc : scalarDefault v = true := by simpa [kwDefault, hn'] using hkd
+        simp only [evTop, hev, bindE_ok, hkw, hkd, fieldMeaning, DefaultSp.value, applyKw, hn']
+        by_cases ht : truthy v = true
+        · cases htd : tryDefault O (denote ty) v with
+          | error e => simp [ht, htd]
+          | ok u => simp [ht, htd, annField, isFieldObj, getItem, finishField, eqResult_scalar _ _ hsc, hn']
+        · have hok' : defaultOk O (denote ty) v = true := by
+            rcases hok with (hok | hok) | hok
+            · exact absurd hok ht
+            · simp [hn'] at hok
+            · exact hok
+          simp [ht, tryDefault_of_ok hok', annField, isFieldObj, getItem, finishField, eqResult_scalar _ _ hsc, hn']
     | eqF p n =>
       simp only [evTop, hev, bindE_ok, fieldMeaning, DefaultSp.value, effOptional]
       have htag : ∀ opt, eqResult (denote ty) opt factoryTag = .field (denote ty) false (some factoryTag) :=
@@ -737,19 +746,27 @@ theorem elabField_meaning' (O : Oracles) (future : Bool) (fs : FieldSp)
     | eq v n => simp at hd
     | kw v n =>
       simp only [Bool.and_eq_true, Bool.or_eq_true] at hd
-      obtain ⟨⟨hsc, hkw⟩, hok⟩ := hd
+      obtain ⟨⟨hkd, hkw⟩, hok⟩ := hd
       have ho := g.ki hkw
       subst ho
-      simp only [evTop, hev, bindE_ok, hkw, hsc, fieldMeaning, DefaultSp.value, applyKw]
-      by_cases ht : truthy v = true
-      · cases htd : tryDefault O (denote ty) v with
-        | error e => simp [ht]
-        | ok u => simp [ht, assignField, finishFieldNoCheck, eqResult_scalar _ _ hsc]
-      · have hok' : defaultOk O (denote ty) v = true := by
-          rcases hok with hok | hok
-          · exact absurd hok ht
-          · exact hok
-        simp [ht, tryDefault_of_ok hok', assignField, finishFieldNoCheck, eqResult_scalar _ _ hsc]
+      by_cases hn : v.isNone = true
+      · have hv : v = .none := by cases v <;> simp [PyVal.isNone] at hn ⊢
+        subst hv
+        simp [evTop, hev, hkw, kwDefault, PyVal.isNone, fieldMeaning, DefaultSp.value, applyKw, truthy, assignField,
+          finishFieldNoCheck, effOptional]
+      · have hn' : v.isNone = false := by simpa using hn
+        have hsc : scalarDefault v = true := by simpa [kwDefault, hn'] using hkd
+        simp only [evTop, hev, bindE_ok, hkw, hkd, fieldMeaning, DefaultSp.value, applyKw, hn']
+        by_cases ht : truthy v = true
+        · cases htd : tryDefault O (denote ty) v with
+          | error e => simp [ht, htd]
+          | ok u => simp [ht, htd, assignField, finishFieldNoCheck, eqResult_scalar _ _ hsc, hn']
+        · have hok' : defaultOk O (denote ty) v = true := by
+            rcases hok with (hok | hok) | hok
+            · exact absurd hok ht
+            · simp [hn'] at hok
+            · exact hok
+          simp [ht, tryDefault_of_ok hok', assignField, finishFieldNoCheck, eqResult_scalar _ _ hsc, hn']
     | eqF p n => simp at hd
     | kwF p n =>
       have hkw : kwAllowed ty = true := hd
